@@ -984,7 +984,7 @@ func cfRandResp(rnd *rand.Rand, call string) cfResp {
 	// Location
 	switch r.Loc = cfPick(rnd, "none", "none", "empty", "bad", "path", "path", "path", "pathq", "pathfq", "url", "rel", "dup", "rand"); r.Loc {
 	case "bad":
-		raw("loc", cfPick(rnd, "%zz", "http://[", "\x7f", "%")+cfAlnum(rnd))
+		raw("loc", cfPick(rnd, "%zz", "http://[", "\x7f", "%z")+cfAlnum(rnd))
 	case "rand":
 		raw("loc", cfRandBytes(rnd, rnd.Intn(6)))
 	}
